@@ -189,7 +189,30 @@ def judge_case(record):
     return (judge_vary(c) if "salts" in c else judge(c))["viol"]
 
 
+def k1_probe(rec):
+    ids = set()
+    for k in runner.known_for("C09"):
+        ids |= set(k.get("identifiers", []))
+    n = "choose_experiment_variant"
+    body = M.ret([(M.lit_str("g%d" % j), "1") for j in range(16)])
+    ev, res = _compile(M.program("exp", body, splitters=[n]))
+    if ev is None:
+        return True
+    got = {repr(sut.call(ev, {n: "user-%d" % i})) for i in range(200)}
+    if len(got) < 2:
+        if n in ids:
+            rec.known_finding("K1", "a splitter named choose_experiment_variant is shadowed by the generated helper: 200 distinct "
+                              "values land in one group (still failing)")
+            return True
+        rec.violation("k1-probe", {"prog": M.program("exp", body, splitters=[n]), "inputs": []},
+                      ["200 distinct values of splitter %s land in one group" % n])
+        return False
+    return True
+
+
 def run(ctx, rec):
+    if ctx.shard == 0 and not k1_probe(rec):
+        return
     runner.hyp_run(ctx, rec, "twins", cases(), judge, ctx.n(400, 2500))
     if rec.violations:
         return
